@@ -6,7 +6,7 @@
    merge order itself is compared on every run with an independent reading of the property
    through the trace parameter. *)
 From RV Require Import Model.Node Spec.DeepMerge Proofs.WfFacts Proofs.NamesFacts Proofs.NodeFacts Proofs.WalkFold Proofs.NodeTotal
-     Proofs.Refinement Proofs.NodeRefines Proofs.Twin Proofs.Unrender Proofs.Inline Proofs.TwinStack.
+     Proofs.Refinement Proofs.NodeRefines Proofs.Twin Proofs.Unrender Proofs.Inline Proofs.TwinStack Proofs.WalkOwn.
 
 (** Each class is merged the first time it is reached and never again: the record of merged
     classes never holds a name twice. *)
@@ -146,6 +146,34 @@ Theorem C01_rendered_parameters_are_the_deep_merge_of_the_inlined_walk :
                  end).
 Proof. exact node_params_are_the_deep_merge_of_the_inlined_walk. Qed.
 Eval cbv in "ASSUMPTIONS-OF C01_rendered_parameters_are_the_deep_merge_of_the_inlined_walk"%string. Print Assumptions C01_rendered_parameters_are_the_deep_merge_of_the_inlined_walk.
+
+(** "... a reference-bearing include entry is resolved against the parameters merged from the classes
+    that precede it": an entity's include list is walked before the entity itself is merged, so which
+    classes the walk loads, in which order, and what has been accumulated when the entity's own turn
+    comes do not depend on the entity's own parameters or applications (Proofs/WalkOwn.v). *)
+Theorem C01_own_parameters_do_not_select_own_includes :
+  forall f fi cfg tbl self self' seen loading root,
+    n_loc self = n_loc self' -> n_classes self = n_classes self' ->
+    forall s1 seen1 r1, render_impl f fi cfg tbl self seen loading root = Ok (s1, seen1, r1) ->
+      exists root', merge_into self root' = Ok (s1, r1) /\
+        forall s2 seen2 r2, render_impl f fi cfg tbl self' seen loading root = Ok (s2, seen2, r2) ->
+          seen2 = seen1 /\ merge_into self' root' = Ok (s2, r2).
+Proof. exact own_parameters_do_not_select_own_includes. Qed.
+Eval cbv in "ASSUMPTIONS-OF C01_own_parameters_do_not_select_own_includes"%string. Print Assumptions C01_own_parameters_do_not_select_own_includes.
+
+(** non-vacuity: class app selects its flavour class through ${flavor}; defining flavor itself does
+    not change which class is loaded (the preceding class decides) *)
+Example C01_own_parameters_nonvacuous :
+  let cls name incs ps := {| ce_name := name; ce_loc := [];
+        ce_doc := YMap [(YStr "classes", YSeq (map YStr incs)); (YStr "parameters", YMap ps)] |} in
+  let tbl := [cls "defaults" [] [(YStr "flavor", YStr "small")]; cls "small" [] [(YStr "size", YNum (NInt 1))];
+              cls "large" [] [(YStr "size", YNum (NInt 100))];
+              cls "app" ["defaults"; "${flavor}"] [(YStr "flavor", YStr "large")]] in
+  let cfg := {| c_ignore := false; c_matches := []; c_compose := false; c_literal_dots := false |} in
+  exists n, node_of_yaml [] (YMap [(YStr "classes", YSeq [YStr "app"])]) = Ok n /\
+  exists r, node_render 10 100 cfg tbl n {| m_name := "n"; m_uri := ""; m_parts := ["n"] |} = Ok r /\
+    m_get (VStr "size") (n_params r) = Some (VNum (NInt 1)) /\ m_get (VStr "flavor") (n_params r) = Some (VLit "large").
+Proof. cbn zeta. eexists. split; [reflexivity|]. eexists. split; [vm_compute; reflexivity|]. split; vm_compute; reflexivity. Qed.
 
 (** Non-vacuity: a diamond with a reference-bearing include; the class list and the trace show
     post-order, once, node last. *)
